@@ -8,7 +8,6 @@ namespace T14
 open Generated
 
 def expected : List (String × String) := [
-      ("models.py:Task.__init__", "a786e66cf2e789bb"),
       ("models.py:Task.validate_objective_weights", "d992d22ca56f8850"),
       ("models.py:Task.empty_solution", "f68c6b2de6b5fac6"),
       ("models.py:ContinuousMultiVariable", "c4386bff7f69db10"),
